@@ -13,7 +13,8 @@ LEVEL_TEXT = ("see coq/Props/Properties_C11.v: for every source object whose _po
               "(API-built messages, messages decoded from in-order input), without pass-through bytes and with the "
               "constructor-owned BeginString untouched, a clone encodes to the original's bytes; copy_legal into a fresh "
               "deep object transfers every field and group element and returns their number; move_legal makes the target "
-              "equal in content and encoding and leaves null pointers, the present bits and an empty _pos in the source. "
+              "equal in content and encoding and leaves null pointers, the present bits and an empty _pos in the source; "
+              "every field object of a copy keeps its (output precision, value) state, so it renders like the original. "
               "Kernel-checked counter-examples for the hypotheses that are dropped (arrival-order _pos, equal positions, "
               "_unknown, missing group entry in move_legal).")
 LEVEL_NOTE = ("Trusted: Coq kernel, extraction (ExtrOcamlBasic), the hand transcription in coq/C11/Copy.v and coq/Codec "
@@ -24,7 +25,13 @@ PROPS_FILE = "Props/Properties_C11.v"
 COQ_TARGETS = ["Props/Properties_C11.vo", "Extract/Extract_C11.vo"]
 TRUSTED_BASE = ["Coq 8.16.1 kernel (coqc), vm_compute only", "Extraction with ExtrOcamlBasic, no Extract Constant; OCaml 4.13.1",
                 "hand-written model coq/C11/Copy.v of runtime/message.cpp:277-348,669-678 on coq/Codec/*.v, tied by differential execution",
-                "harness/h_c11.cpp + harness/meta_dump.hpp (metadata taken from the compiled generated classes)",
+                "coq/C11/Precision.v: float fields carry (precision, text); rendering by C08's fast_atof / modp_dtoa models over "
+                "Flocq 4.1.0 binary64; only c11_precision_nonvacuous (a vm_compute witness through those functions) depends on the "
+                "Coq Reals / Flocq axioms ClassicalDedekindReals.sig_forall_dec, ClassicalDedekindReals.sig_not_dec, "
+                "Classical_Prop.classic, FunctionalExtensionality.functional_extensionality_dep; all other theorems are axiom-free",
+                "harness/h_c11.cpp + harness/meta_dump.hpp (metadata taken from the compiled generated classes); the harness sets "
+                "the precision of an API-built float field through Field<fp_type,0>::set_precision (layout-compatible cast, as "
+                "fix8's own has_group_count)",
                 "ocaml/prelude.ml + ocaml/c11_driver.ml (metadata / msgspec / dump parsers), vlib/codecgen.py + vlib/suites/c11.py (generators)"]
 ASSUMPTIONS = ["field values are canonical for their type (render = identity on floats and date/time texts); a deviation "
                "shows up as a model/implementation disagreement",
@@ -34,7 +41,9 @@ RULE = ("messages generated from the dumped metadata (every message type, mandat
         "0..3 elements nested to the schema's depth, random insertion order) run through CLONE / COPY / MOVE on the real "
         "objects; the same messages serialised in schema order and in shuffled-but-valid token order, decoded by "
         "Message::factory, then cloned / copied / moved (DCLONE / DCOPY / DMOVE); unpositioned user fields in both insertion "
-        "orders; zero-count group fields; permissive decodes with pass-through bytes. "
+        "orders; zero-count group fields; permissive decodes with pass-through bytes; API-built float fields with an "
+        "explicit output precision 0..9 at top level and inside nested group elements (values whose rendering depends on "
+        "the precision). "
         "non-trivial = every stage OK and at least 8 fields in the source; distinct = distinct case lines")
 
 SOH = b"\x01"
@@ -222,7 +231,66 @@ def gen_cases(rng, tier):
             w = wire(meta, mt, ordered(meta, "header", h), ordered(meta, mt, b), ordered(meta, "trailer", t),
                      extra_tail=[b"%d=%s" % (rng.choice((20000, 30001, 29999)), G.gen_string(rng, eq=False))])
             three_dec(w, "unknown-passthrough", mode="p")
+        # API-built float fields with an explicit output precision 0..9 (Field<fp_type,N>(value, p)):
+        # the copy must render like the original.  Value texts "~p~<decimal>" (see harness make_field /
+        # coq/C11/Precision.v), decimals chosen so that the rendering depends on the precision.
+        ftypes = [mt for mt in types if _has_float(meta, mt, 1)]
+        gtypes = [mt for mt in types if _has_float(meta, mt, 2)]
+        for j in range(45 * k):
+            pool = gtypes if (j % 3 and gtypes) else ftypes
+            if not pool:
+                break
+            g2 = rich if j % 2 else gen
+            msg = g2.message(rng.choice(pool), max_wire=5000)
+            mt, h, b, t = msg
+            n1 = _mark_floats(meta, rng, mt, b, 0)
+            if n1[0] + n1[1] == 0:
+                continue
+            three((mt, h, b, t), "precision-nested" if n1[1] else "precision-body")
     return cs
+
+
+FLOAT_TEXTS = ("400.5", "1.23456", "0.000125", "99.995", "1234567.125", "0.1", "0.5", "2.5", "0.45", "0.95",
+               "1.005", "7.123456789", "31.4159265", "0.999999", "12.0", "3.000001", "19.99", "250.75")
+
+
+def _float_text(rng):
+    if rng.random() < 0.5:
+        s = rng.choice(FLOAT_TEXTS)
+    else:
+        s = "%d.%s" % (rng.choice((0, rng.randrange(10), rng.randrange(1000), rng.randrange(10 ** 6))),
+                       "".join(rng.choice("0123456789") for _ in range(rng.randint(1, 8))))
+    if rng.random() < 0.15:
+        s = "-" + s
+    return s
+
+
+def _is_float(t):
+    return t is not None and G.FT_FLOAT <= t.ftype <= G.FT_END_FLOAT and not t.group
+
+
+def _has_float(meta, owner, depth):
+    """Does `owner` have a float field at nesting level >= depth (1 = its own table)?"""
+    if depth <= 1 and any(_is_float(t) for t in meta.traits.get(owner, [])):
+        return True
+    return any(_has_float(meta, sub, depth - 1) for sub in meta.groups.get(owner, {}).values())
+
+
+def _mark_floats(meta, rng, owner, fs, level):
+    """Turn most float fields (every level) into API-built ones with a random precision; returns
+    [marked at top level, marked inside group elements]."""
+    n = [0, 0]
+    for f in fs:
+        t = meta.trait(owner, f.fnum)
+        if _is_float(t) and rng.random() < 0.8:
+            f.val = ("~%d~%s" % (rng.randrange(10), _float_text(rng))).encode()
+            n[1 if level else 0] += 1
+        sub = meta.groups.get(owner, {}).get(f.fnum)
+        if f.elems and sub:
+            for e in f.elems:
+                m = _mark_floats(meta, rng, sub, e, level + 1)
+                n[1] += m[0] + m[1]
+    return n
 
 
 # ------------------------------------------------------------------------------ dump parser (classifiers)
